@@ -217,6 +217,8 @@ func (st *State) chanSend(x *ssa.Send) {
 	ch := st.val(x.Chan)
 	st.val(x.X)
 	st.sendCheck(ch, x.Pos())
+	st.blockingCheck(x.Pos(), "blocking send")
+	st.countChan("NCS", ch.Tm, TTrue)
 }
 
 func (st *State) sendCheck(ch Value, pos token.Pos) {
@@ -229,11 +231,28 @@ func (st *State) sendCheck(ch Value, pos token.Pos) {
 func (st *State) chanRecv(x *ssa.UnOp, ch Value) Value {
 	el := elemOf(ch.T)
 	v := st.symbolicValue("recv", el)
+	st.blockingCheck(x.Pos(), "blocking receive")
 	if x.CommaOk {
 		ok := st.eng().fresh("recv_ok", SBool)
+		st.countChan("NCR", ch.Tm, ok)
 		return Value{T: x.Type(), Tup: []Value{v, {T: types.Typ[types.Bool], Tm: ok}}}
 	}
+	st.countChan("NCR", ch.Tm, TTrue)
 	return v
+}
+
+// countChan: ghost counters of successful receives (NCR) and sends (NCS) per channel
+func (st *State) countChan(name string, ch Term, ok Term) {
+	sort := ArraySort(SInt, SInt)
+	h := st.heapGet(name, sort)
+	st.heapSet(name, sort, Store(h, ch, Add(Select(h, ch), Ite(ok, IntLit(1), IntLit(0)))))
+}
+
+// blockingCheck: functions flagged nonblocking must not contain a channel operation that can block
+func (st *State) blockingCheck(pos token.Pos, what string) {
+	if st.u.spec != nil && st.u.spec.Flags["nonblocking"] != "" {
+		st.check("nonblocking", what+": "+st.textAt(pos, what), pos, TFalse)
+	}
 }
 
 func (st *State) chanClose(ch Value, pos token.Pos) {
@@ -262,14 +281,21 @@ func (st *State) selectOp(x *ssa.Select) bool {
 		lo = IntLit(-1)
 	}
 	st.assume(And(Le(lo, idx), Lt(idx, IntLit(int64(n)))))
-	tup := []Value{{T: types.Typ[types.Int], Tm: idx}, {T: types.Typ[types.Bool], Tm: e.fresh("sel_ok", SBool)}}
-	for _, s := range x.States {
+	selOk := e.fresh("sel_ok", SBool)
+	tup := []Value{{T: types.Typ[types.Int], Tm: idx}, {T: types.Typ[types.Bool], Tm: selOk}}
+	if x.Blocking {
+		st.blockingCheck(x.Pos(), "blocking select")
+	}
+	for i, s := range x.States {
 		ch := st.val(s.Chan)
+		chosen := Eq(idx, IntLit(int64(i)))
 		if s.Dir == types.RecvOnly {
 			tup = append(tup, st.symbolicValue("sel_recv", elemOf(ch.T)))
+			st.countChan("NCR", ch.Tm, And(chosen, selOk))
 		} else {
 			st.val(s.Send)
 			st.sendCheck(ch, s.Pos)
+			st.countChan("NCS", ch.Tm, chosen)
 		}
 	}
 	fr.regs[x] = Value{T: x.Type(), Tup: tup}
